@@ -18,7 +18,34 @@ def x_preempt_blocked(spec):
     return False
 
 
+def x_preempt_renege(spec):
+    """F5: a customer displaced by a pre-emptive priority keeps the reneging date of its arrival; if that date has passed
+    a renege event is scheduled in the past.  Excluded by dropping reneging distributions at pre-emptive-priority nodes."""
+    hit = False
+    for i, nd in enumerate(spec["nodes"]):
+        if nd.get("prio_preempt"):
+            for c in spec["classes"]:
+                if c.get("renege") and c["renege"][i] is not None:
+                    c["renege"][i] = None
+                    hit = True
+    for c in spec["classes"]:
+        if c.get("renege") is not None and not any(c["renege"]):
+            del c["renege"]
+    return hit
+
+
+def x_exact_low_precision(spec):
+    """F23: with exact=k smaller than the number of digits of the samples, sums are rounded to k digits but `now` is not:
+    a zero/short service can end before it started.  Excluded by raising k to 20 (no rounding of 17-digit float samples)."""
+    if spec.get("exact") and spec["exact"] < 20:
+        spec["exact"] = 20
+        return True
+    return False
+
+
 EXCLUSIONS = {
+    "preempt_renege": x_preempt_renege,
+    "exact_low_precision": x_exact_low_precision,
     "preempt_blocked": x_preempt_blocked,
 }
 
